@@ -262,6 +262,64 @@ def bad_args(x, p):
                 'an error', err == 'LuaBuildError', info=str(err))
 
 
+def empty_pkgs(x, p):
+    """A required package that leaves nothing to embed - an empty file, only
+    comments or blank lines, only game-loop functions (dropped unless
+    use_game_loop) - is still defined in the package table, once, because
+    the loader calls it."""
+    body = x.choice('body', [b'', b'\n\n', b'-- only a comment\n',
+                             b'-- no final line end',
+                             b'function _update() end\n',
+                             b'function _draw()\nend',
+                             b'function _init() end\nfunction _draw() end\n'])
+    ugl = x.choice('use_game_loop', [False, True])
+    opt = b',{use_game_loop=true}' if ugl else b''
+    main = b'local p=require("p1"' + opt + b')\nx=1\n'
+    files = {'/w/r/p1.lua': body}
+    hx.patch(x, os.path, 'isfile', lambda path: path in files)
+    hx.patch(x, builtins, 'open',
+             lambda path, mode='r', *a, **k: hx.MemStream(files[path]))
+    main_lua = lua.Lua.from_lines([main], version=8)
+    package_lua = {}
+    try:
+        build._evaluate_require(main_lua, file_path='/w/r/main.lua',
+                                package_lua=package_lua, lua_path=None)
+        built = build._prepend_package_lua(main_lua, package_lua)
+    except Exception as e:
+        x.check('a package with nothing to embed builds', False,
+                info=repr(e)[:160])
+        return
+    code = b''.join(built.to_lines())
+    x.out('code', code)
+    toks = [t for t in built.tokens if not isinstance(
+        t, (lexer.TokSpace, lexer.TokNewline, lexer.TokComment))]
+    keys = []
+    for k in range(len(toks) - 3):
+        if toks[k].matches(lexer.TokName(b'_c')) and \
+                toks[k + 1].matches(lexer.TokSymbol(b'[')) and \
+                isinstance(toks[k + 2], lexer.TokString) and \
+                toks[k + 3].matches(lexer.TokSymbol(b']')) and \
+                toks[k + 4].matches(lexer.TokSymbol(b'=')):
+            keys.append(toks[k + 2].value)
+    x.check('the package table defines the required name exactly once',
+            keys == [b'p1'])
+    body_sig = sig_tokens(body)
+    if not ugl:
+        body_sig = []           # every body here is game-loop functions only
+        if body.startswith(b'function') is False:
+            body_sig = sig_tokens(body)
+    exp = b'package={loaded={},_c={}}\npackage._c["p1"]=function()\n'
+    x.check('the built code is the package table, the package (minus its '
+            'game loop functions), the loader and the main program',
+            sig_tokens(code) == sig_tokens(exp) + body_sig + sig_tokens(
+                b'end\n' + b''.join(build.REQUIRE_LUA_PREAMBLE_REQUIRE) +
+                main))
+    end_ok = built.root.end_pos >= len(built.tokens) or all(
+        isinstance(t, (lexer.TokSpace, lexer.TokNewline, lexer.TokComment))
+        for t in built.tokens[built.root.end_pos:])
+    x.check('picotool parsed the built code to its end', end_ok)
+
+
 POSITIONS = [
     ('stat', b'%s\n'), ('local', b'local z=%s\n'),
     ('if-body', b'if a then %s end\n'),
@@ -408,6 +466,7 @@ HARNESSES = [
                       dict(Q, cycle=True, gl2=True)]),
     Harness('bad_args', bad_args, quick=[Q]),
     Harness('positions', positions, quick=[Q]),
+    Harness('empty_pkgs', empty_pkgs, quick=[Q]),
     Harness('names', names, quick=[dict(Q, n=1), dict(Q, n=2)],
             thorough=[dict(Q, n=1), dict(Q, n=2), dict(Q, n=3)]),
     Harness('cli', cli, quick=[Q]),
